@@ -385,8 +385,9 @@ func main() {
 	var ov overlays
 	out := flag.String("o", "ir.json", "output")
 	flag.Var(&ov, "overlay", "virtual=real")
+	dir := flag.String("dir", "/repo", "repository root")
 	flag.Parse()
-	cfg := &packages.Config{Mode: packages.LoadSyntax, Dir: "/repo", Env: append(os.Environ(), "GOFLAGS=-mod=mod", "GOPROXY=off"), Overlay: map[string][]byte{}}
+	cfg := &packages.Config{Mode: packages.LoadSyntax, Dir: *dir, Env: append(os.Environ(), "GOFLAGS=-mod=mod", "GOPROXY=off"), Overlay: map[string][]byte{}}
 	for _, o := range ov {
 		kv := strings.SplitN(o, "=", 2)
 		b, err := os.ReadFile(kv[1])
